@@ -437,16 +437,24 @@ fn jets() {
             .map(|t| t.to_string())
             .collect();
         let tgt = simfony::jet::target_type(jet).to_string();
+        let rsrc: Vec<String> = simfony::jet::source_type(jet)
+            .iter()
+            .map(|t| t.resolve_builtin().map(|r| r.to_string()).unwrap_or_default())
+            .collect();
+        let rtgt = simfony::jet::target_type(jet)
+            .resolve_builtin()
+            .map(|r| r.to_string())
+            .unwrap_or_default();
         let st = jet.source_ty().to_final();
         let tt = jet.target_ty().to_final();
         let o = json!({
             "jet": jet.to_string(),
             "params": src,
             "result": tgt,
+            "rparams": rsrc,
+            "rresult": rtgt,
             "source_width": st.bit_width(),
             "target_width": tt.bit_width(),
-            "source": final_to_json(&st),
-            "target": final_to_json(&tt),
         });
         writeln!(w, "{}", o).unwrap();
     }
